@@ -94,7 +94,10 @@ PROPS['C09'] = dict(
         K('poulpy-cpu-ref', 'verif_kani::c09_rings', ['c09_merge_rings__g2_n1_s21_r2', 'c09_mul_xp_minus_one__n4_a1_r2_p1', 'c09_mul_xp_minus_one__n4_a1_r2_pm5'], cls='bounded', timeout=900,
           bound='2 parts of ring degree 1 (2: thorough) with 2 and 1 limbs (1 and 2: thorough) merged into 2 (3) limbs, two columns; all limb values and the previous result contents symbolic',
           functions=['vec_znx_merge_rings (index-level model; structure-independent complement of the Verus unit)', 'vec_znx_mul_xp_minus_one out of place into a longer, dirty result (N = 4, 1 limb into 2, p = 1 and -5)']),
-        K('poulpy-cpu-ref', 'verif_kani::c09_rings', ['c09_merge_rings__g2_n1_s12_r3', 'c09_merge_rings__g2_n2_s21_r2'], cls='bounded', tier='thorough', timeout=1500, bound='as above'),
+        K('poulpy-cpu-ref', 'verif_kani::c09_rings', ['c09_col_rotate__n4_p3', 'c09_col_automorphism__n4_p3', 'c09_col_add__n4', 'c09_col_sub_a_short__n4'], cls='bounded', timeout=900,
+          bound='N = 4, operand a 1 limb, b 2 limbs, result 3 limbs, two columns, all values symbolic (|x| < 2^61), stale result',
+          functions=['vec_znx_rotate, vec_znx_automorphism, vec_znx_add_into, vec_znx_sub (copy / negate / other exponents: thorough): index-level models, structure-independent complements of the Verus units']),
+        K('poulpy-cpu-ref', 'verif_kani::c09_rings', ['c09_merge_rings__g2_n1_s12_r3', 'c09_merge_rings__g2_n2_s21_r2', 'c09_col_rotate__n4_pm5', 'c09_col_automorphism__n4_pm1', 'c09_col_copy__n4', 'c09_col_negate__n4', 'c09_col_sub_b_short__n4'], cls='bounded', tier='thorough', timeout=1500, bound='as above'),
     ],
     trusted_base=VERUS_TRUST,
     assumptions=['no i64 overflow in limb-wise add/sub/negate (stated as preconditions; the debug profile would panic, the release profile wraps)',
@@ -107,7 +110,7 @@ PROPS['C11'] = dict(
     technique='Verus postconditions that define every limb of the selected column from the inputs only, plus frame clauses over all other limb blocks, on the extracted real text',
     level_text='Unbounded proof for the coefficient-domain column operations: each ensures gives final(res).limb(col, j) for all j < size as a function of the read-only inputs (no old(res) on the right-hand side for out-of-place ops) and frame_ok: every block outside (col, 0..size) is unchanged.',
     level_note='Covers the vec_znx_* reference operations, the transform-domain wrappers of vec_znx_dft.rs (fft64 and ntt120, numeric kernels abstract), the GLWE operation wrappers, and -- core layer, as a dependency-flow proof over assumed HAL flow contracts -- gglwe_product_dft, glwe_keyswitch_internal, glwe_keyswitch and glwe_decrypt: with nothing required of the previous contents of res or of the scratch arena, no limb of the result depends on stale bytes (the accumulator taken from scratch must be cleared before the digit-grouped product: for dsize >= 3 its last limbs are only ever added to); idft/svp/vmp/convolution kernels themselves and the other core operations are not covered by this check.',
-    units=[K('poulpy-cpu-ref', 'verif_kani::c09_rings', ['c09_mul_xp_minus_one__n4_a1_r2_p1'], cls='bounded', timeout=900, bound='N = 4, operand 1 limb, result 2 limbs and 2 columns, all values symbolic (|a| < 2^62), stale result', functions=['vec_znx_mul_xp_minus_one (out of place): structure-independent complement of the Verus unit vec_znx_ring']), V('vec_znx_arith'), V('vec_znx_ring'), V('vec_znx_merge'), V('vec_znx_split'), V('vec_znx_big'), V('vec_znx_normalize'), V('vec_znx_dft'), V('vec_znx_dft_ntt120'), V('vmp_fft64'), V('vmp_ntt120'), V('cnv_prepare_fft64'), V('cnv_apply_fft64'), V('glwe_ops'), V('core_keyswitch'), V('core_extprod'), V('core_decrypt'),
+    units=[K('poulpy-cpu-ref', 'verif_kani::c11_cnv', ['c11_cnv_apply_frame__n8_c2_r3'], cls='bounded', timeout=1500, bound='N = 8, destination 2 columns x 3 limbs with fully symbolic previous contents, operands 1 limb (all-zero prepared vectors), selected column symbolic', functions=['fft64 convolution_apply_dft: the selected column does not depend on the previous contents of the destination (tail limbs zero-filled) and the other column is untouched -- two-run comparison, structure-independent complement of the Verus unit cnv_apply_fft64']), K('poulpy-cpu-ref', 'verif_kani::c09_rings', ['c09_col_rotate__n4_p3', 'c09_col_add__n4'], cls='bounded', timeout=900, bound='N = 4, operand 1 limb (2), result 3 limbs, two columns, stale result', functions=['vec_znx_rotate, vec_znx_add_into: every limb of the selected column defined (zero past the operands), other column untouched -- index-level model']), K('poulpy-cpu-ref', 'verif_kani::c09_rings', ['c09_mul_xp_minus_one__n4_a1_r2_p1'], cls='bounded', timeout=900, bound='N = 4, operand 1 limb, result 2 limbs and 2 columns, all values symbolic (|a| < 2^62), stale result', functions=['vec_znx_mul_xp_minus_one (out of place): structure-independent complement of the Verus unit vec_znx_ring']), V('vec_znx_arith'), V('vec_znx_ring'), V('vec_znx_merge'), V('vec_znx_split'), V('vec_znx_big'), V('vec_znx_normalize'), V('vec_znx_dft'), V('vec_znx_dft_ntt120'), V('vmp_fft64'), V('vmp_ntt120'), V('cnv_prepare_fft64'), V('cnv_apply_fft64'), V('glwe_ops'), V('core_keyswitch'), V('core_extprod'), V('core_decrypt'),
            K('poulpy-cpu-ref', 'verif_kani::c11_ak', ['c11_ak_dft_apply__a3_r2_step2_off1', 'c11_ak_dft_apply__a2_r3_step1_off0', 'c11_ak_dft_apply__a3_r3_step2_off0', 'c11_ak_dft_apply__a2_r2_step1_off1'],
              cls='bounded', tier='thorough', timeout=1500, bound='FFT64Ref, N=8, two output columns, (a_size, res_size, step, offset) constant per harness; numeric kernels abstract',
              functions=['VecZnxDftApply::vec_znx_dft_apply (fft64 reference, real shape logic; fft_ref / reim_from_znx_i64_ref / table fills replaced by bit-level mixers)'],
